@@ -754,13 +754,13 @@ func tgValueTypes(v reflect.Value, depth int, f func(reflect.Type)) {
 		if v.Len() == 0 {
 			tgTypeTypes(v.Type().Elem(), depth+1, f)
 		}
-		for i := 0; i < v.Len() && i < 8; i++ {
+		for i := 0; i < v.Len() && i < 64; i++ {
 			tgValueTypes(v.Index(i), depth+1, f)
 		}
 	case reflect.Map:
 		tgTypeTypes(v.Type().Elem(), depth+1, f)
 		it := v.MapRange()
-		for n := 0; it.Next() && n < 8; n++ {
+		for n := 0; it.Next() && n < 64; n++ { // (8 missed the one member of a 40-member map that held the recorded shape)
 			tgValueTypes(it.Value(), depth+1, f)
 		}
 	case reflect.Struct:
